@@ -236,6 +236,25 @@ impl<B: AsRef<[usize]>> BitVec<B> {
         let word = self.bits.as_ref().get_unchecked(word_index);
         (word >> (index % BITS)) & 1 != 0
     }
+
+    /// A parallel version of [`BitVec::count_ones`].
+    #[cfg(feature = "rayon")]
+    pub fn par_count_ones(&self) -> usize {
+        let full_words = self.len() / BITS;
+        let residual = self.len() % BITS;
+        let bits = self.bits.as_ref();
+        let mut num_ones;
+        num_ones = bits[..full_words]
+            .par_iter()
+            .with_min_len(RAYON_MIN_LEN)
+            .map(|x| x.count_ones() as usize)
+            .sum();
+        if residual != 0 {
+            num_ones += (self.as_ref()[full_words] << (BITS - residual)).count_ones() as usize
+        }
+
+        num_ones
+    }
 }
 
 impl<B: AsRef<[usize]> + AsMut<[usize]>> BitVec<B> {
@@ -329,25 +348,6 @@ impl<B: AsRef<[usize]> + AsMut<[usize]>> BitVec<B> {
             let mask = (1 << residual) - 1;
             bits[full_words] = (bits[full_words] & !mask) | (!bits[full_words] & mask);
         }
-    }
-
-    /// A parallel version of [`BitVec::count_ones`].
-    #[cfg(feature = "rayon")]
-    pub fn par_count_ones(&self) -> usize {
-        let full_words = self.len() / BITS;
-        let residual = self.len() % BITS;
-        let bits = self.bits.as_ref();
-        let mut num_ones;
-        num_ones = bits[..full_words]
-            .par_iter()
-            .with_min_len(RAYON_MIN_LEN)
-            .map(|x| x.count_ones() as usize)
-            .sum();
-        if residual != 0 {
-            num_ones += (self.as_ref()[full_words] << (BITS - residual)).count_ones() as usize
-        }
-
-        num_ones
     }
 }
 
